@@ -59,7 +59,7 @@ import common
 ID = "C20"
 RULE = ("cases = class hierarchy (1-3 attrs classes: base, subclasses adding/re-declaring validated fields, siblings) x "
         "faulty validator x start position x operation history whose readers each name the class whose instance they "
-        "work on (fields incl. init=False ones with every kind of default), optionally one callback performing nested operations (reads, readers on other instances, own blocks with flips) whenever it is called; every assignment says which object it binds (fresh / the stored one / equal copy / +=); sweeps: every reader over the classes of a hierarchy in every order, twice, enabled / after a "
+        "work on (fields incl. init=False ones with every kind of default), each field spelt plainly / as a private name / with an explicit alias, validator chains written as function / list / tuple / and_ / nested and_ / decorator / a callable-but-falsy object, optionally one callback performing nested operations (reads, readers on other instances, own blocks with flips) whenever it is called; every assignment says which object it binds (fresh / the stored one / equal copy / +=); sweeps: every reader over the classes of a hierarchy in every order, twice, enabled / after a "
         "disabled pass; thorough: ALL histories of "
         "length <= 5 over {set_disabled(T/F), set_run_validators(T/F), enter, exit, exit-by-exception, construct, "
         "assign, validate} that never exit with nothing open (closed at the end), from both start positions, each on a "
@@ -76,6 +76,7 @@ ASSUMPTIONS = [
     "FIXED READING of an ambiguity ('iff globally enabled' -- at which instant?): a construction follows the switch as it is when its validators step is reached, i.e. after the pre-init hook, factories and converters of that construction ran (what the unchanged code does); set_disabled()/set_run_validators() called from inside such a callback is a switch operation like any other; validate(inst) reads the switch once when called",
     "callback bodies close the blocks they open; they may leave the switch flipped (setters outside blocks) unless the probing callback can run during one of the history's assignments (each hook of an assignment reads the switch for itself; flips between them are not modelled); after an operation whose callback bodies can leave the switch flipped the harness puts the switch back to the position the operation found, so the history continues from there; nested readers' own callbacks have no bodies (depth 1)",
     "construction is modelled through the shared initializer model (Model/Init.lean), tied to the code by the C01/C02 correspondence as well",
+    "how the class body spells a field is harness-only variation the model is independent of (cfg.pyNames, one spelling per field name and hierarchy): as in the model / private `_x` (init alias `x`) / explicit alias='al_x'; constructions pass the alias, assignments use the attribute name, callbacks report the model's name; likewise how a validator chain is written, incl. style 'falsy': one user-written callable validator object with len() == 0 that runs the chain's members in order -- every reader must run it exactly like a truthy one",
 ]
 EXHAUSTIVE = {"quick": False, "thorough": True}
 BUDGET_S = {"quick": 26, "thorough": 420}
@@ -103,6 +104,7 @@ def chain(l):
 
 # ------------------------------------------------------------------------------------------ callbacks
 def _hit(kind, field, idx):
+    field = field.lstrip("_")          # callbacks report the model's field name (cfg.pyNames: real name `_x`)
     LOG.append({"kind": kind, "field": field, "idx": idx})
     if PROBE[0] == (kind, field, idx) and not NESTING[0] and RUN_BODY[0] is not None:
         RUN_BODY[0]()                 # the callback does its nested work, then returns or raises as usual
@@ -127,6 +129,30 @@ def mk_validator(i):
             kind = "validator-foreign"
         _hit(kind, a.name, i)
     return v
+
+
+class _FalsyChain:
+    """a user-written validator object that is callable but falsy (sized, `len() == 0`): runs its members in order"""
+
+    def __init__(self, vs):
+        self._validators = tuple(vs)
+
+    def __len__(self):
+        return 0
+
+    def __call__(self, inst, a, value):
+        for v in self._validators:
+            v(inst, a, value)
+
+
+def py_name(cfg, name):
+    """the attribute name the class body really uses for the model's field `name` (cfg.pyNames, per hierarchy)"""
+    return "_" + name if (cfg.get("pyNames") or {}).get(name) == "private" else name
+
+
+def py_alias(cfg, name):
+    """the `__init__` parameter: private names lose the underscore, explicit `alias=` otherwise"""
+    return "al_" + name if (cfg.get("pyNames") or {}).get(name) == "alias" else name
 
 
 def mk_converter(name):
@@ -194,11 +220,13 @@ def _on_setattr(hook, bare):
     return {"on_setattr": fns}
 
 
-def _mk_field(f, is_define, bare):
+def _mk_field(f, is_define, bare, cfg=None):
     n = f["validators"]
     style = f.get("style", "list")
     vs = [mk_validator(i) for i in range(n)]
     kw = dict(_on_setattr(f["onSet"], bare))
+    if py_alias(cfg or {}, f["name"]) != f["name"]:
+        kw["alias"] = py_alias(cfg, f["name"])
     if f["conv"]:
         kw["converter"] = mk_converter(f["name"])
     dk = _dflt_kind(f)
@@ -215,7 +243,9 @@ def _mk_field(f, is_define, bare):
     if not f.get("init", True):
         kw["init"] = False
     deco = None
-    if n == 1:
+    if n >= 1 and style == "falsy":
+        kw["validator"] = _FalsyChain(vs)
+    elif n == 1:
         if style == "deco":
             deco = vs[0]
         elif style in ("list", "and_", "nested"):
@@ -328,7 +358,7 @@ def build(case):
         base = (Exception if cfg.get("exc") else object) if node["parent"] is None else classes[node["parent"]]
         if node.get("plain") and node["parent"] is not None and not eff_slots:
             base = type("Plain%d" % k, (base,), {})
-        ns = {f["name"]: _mk_field(f, is_define, bare) for f in node["own"]}
+        ns = {py_name(cfg, f["name"]): _mk_field(f, is_define, bare, cfg) for f in node["own"]}
         if node.get("pre", "none") != "none":
             ns["__attrs_pre_init__"] = _pre_noargs if node["pre"] == "noArgs" else _pre_withargs
         if node.get("post"):
@@ -339,7 +369,8 @@ def build(case):
         elif frozen in ("direct", "attrs.frozen") or (frozen == "inherited" and node["parent"] is None):
             kwk["frozen"] = True                               # "inherited": only the root says so
         classes.append(dk(**kwk)(type("K%d" % k, (base,), ns)))
-    return [(K, [f["name"] for f in c["fields"]], [f["name"] for f in c["fields"] if _passed(f)])
+    return [(K, [py_name(cfg, f["name"]) for f in c["fields"]],
+             [py_alias(cfg, f["name"]) for f in c["fields"] if _passed(f)])
             for K, c in zip(classes, case["classes"])]
 
 
@@ -685,8 +716,8 @@ ALPHA = [{"setDisabled": {"a": "T"}}, {"setDisabled": {"a": "F"}}, {"setRun": {"
 
 def _style(n, rng):
     if n <= 1:
-        return rng.choice(["single", "single", "list", "and_", "deco"])
-    return rng.choice(["list", "list", "and_", "deco", "nested", "tuple"])
+        return rng.choice(["single", "single", "list", "and_", "deco", "falsy"])
+    return rng.choice(["list", "list", "and_", "deco", "nested", "tuple", "falsy"])
 
 
 def _restyle(hier, rng):
@@ -708,6 +739,8 @@ def _rand_cfg(rng):
         "exc": rng.random() < 0.15,
         "frozen": rng.choice([None, None, None, "direct", "attrs.frozen", "inherited"]),
         "cacheHash": rng.random() < 0.2,
+        # how the class body spells each field: as in the model / private `_x` (alias x) / explicit alias=
+        "pyNames": {n: rng.choice(["plain", "plain", "private", "alias"]) for n in NAMES} if rng.random() < 0.6 else {},
     }
 
 
@@ -1182,6 +1215,10 @@ def dist(case, obs):
         "exception_class": bool(cfg.get("exc")),
         "build_disabled": cfg.get("buildDisabled"),
         "driver": "with-statements" if cfg.get("realWith") else "enter/exit calls",
+        "field_spelling": ",".join(sorted({(cfg.get("pyNames") or {}).get(f["name"], "plain")
+                                           for c in case["classes"] for f in c["fields"]})),
+        "falsy_validator_objects": min(3, sum(1 for c in case["classes"] for f in c["fields"]
+                                              if f["validators"] and f.get("style") == "falsy")),
     }
 
 
@@ -1242,7 +1279,7 @@ def shrink(case):
     cfg = case.get("cfg", {})
     base = {"slots": None, "bare": True, "buildDisabled": False, "earlyCm": False,
             "excKinds": ["valueError"], "via": "attr", "realWith": False, "attrsInit": False, "exc": False, "adopt": False, "frozen": None,
-            "cacheHash": False}
+            "cacheHash": False, "pyNames": {}}
     for k, v in base.items():
         if cfg.get(k) != v:
             yield dict(case, cfg=dict(cfg, **{k: v}))
